@@ -379,7 +379,15 @@ where
     conquer(
         d, old, old_range, new, new_range, &mut vf, &mut vb, deadline,
     )?;
-    /*@*/ let ghost tm = d.trace();
+    /*@*/ proof {
+    /*@*/     let d0 = *vstd::prelude::old(d);
+    /*@*/     let sa = choose|q: Seq<Ev>| #[trigger] seg(old, new, q, old_range.start as int, new_range.start as int, old_range.end as int, new_range.end as int)
+    /*@*/         && d.trace() == d0.trace() + q + Seq::<Ev>::empty() && (d0.relies() ==> d.rely_st() == run_rel(d0.rely_rel(), d0.rely_st(), q));
+    /*@*/     if d0.relies() { lemma_seg_any(rel_of(old, new), d0.rely_rel(), sa, old_range.start as int, new_range.start as int, old_range.end as int, new_range.end as int, d0.rely_st()); }
+    /*@*/     assert(d0.trace() + sa + Seq::<Ev>::empty() + fin::<D>() =~= d0.trace() + sa + fin::<D>());
+    /*@*/     assert(sa + Seq::<Ev>::empty() =~= sa);
+    /*@*/     lemma_run_fin::<D>(d0.rely_rel(), d0.rely_st(), sa);
+    /*@*/ }
     d.finish()
 }
 //@@ end
